@@ -434,18 +434,9 @@ def succs_all(t):
     return succs(t)
 
 
-def effect_canon(f, cells=False):
-    """configuration-independent list of a body's effects: stores (to memory / named variables), effectful calls,
-    live branches and the returned value, with temporaries inlined (Sym) and assertion plumbing removed"""
-    sy = Sym(f)
-    lines = []
-
-    def skip_sp(sp):
-        m = sp.get("macros", [])
-        return "invariant" in m or "debug_assert" in m
-
-    # debug-assertion regions: `if cfg!(debug_assertions) { <check> }` with the constant true - everything between the
-    # taken arm and the join point belongs to the assertion and is not behaviour of the function
+def debug_regions(f):
+    """blocks that belong to `if cfg!(debug_assertions) { <check> }` with the constant true: everything between the taken arm
+    and the join point is the assertion (its condition's evaluation included) and not behaviour of the function"""
     region = set()
     for i in f.live:
         b = f.blocks[i]
@@ -470,6 +461,20 @@ def effect_canon(f, cells=False):
                 joins.add(dt["to"])
         if taken and joins:
             region |= f.reach_from(taken[0], avoid=joins)
+    return region
+
+
+def effect_canon(f, cells=False):
+    """configuration-independent list of a body's effects: stores (to memory / named variables), effectful calls,
+    live branches and the returned value, with temporaries inlined (Sym) and assertion plumbing removed"""
+    sy = Sym(f)
+    lines = []
+
+    def skip_sp(sp):
+        m = sp.get("macros", [])
+        return "invariant" in m or "debug_assert" in m
+
+    region = debug_regions(f)
     for i in f.rpo():
         if i in region:
             continue
@@ -613,3 +618,39 @@ def cfgdiff(ctx, base, prog):
     for p in oa:
         ok = bool(rem_rx) and re.search(rem_rx, p) is not None
         ctx.ob(RC, "%s vs %s: removed body %s belongs to the std/alloc/easy surface" % (cfg, base_cfg, re.sub(r"^internals::", "", p)), ok, "" if ok else "a core function disappears under this feature set")
+
+
+def assertions_pure(ctx, prog, floor=40):
+    """debug_assert!/invariant! conditions are evaluated only in some builds: they must not carry effects.  No call inside an assertion
+    region (the blocks between `if cfg!(debug_assertions)` and its join, condition evaluation included) receives `&mut` to caller-visible
+    state (a parameter, something reachable from one, or a named local of the function), and no statement there stores through such a
+    reference - otherwise debug and release builds do different things (and SA-CFGDIFF, which sets assertion regions aside, cannot see it)."""
+    RA = "SA-CFGDIFF"
+    n = 0
+    bad_total = 0
+    for f in prog.fns:
+        if f.derived:
+            continue
+        region = debug_regions(f)
+        if not region:
+            continue
+        named = {l for l in range(f.argc + 1, len(f.locals)) if f.locals[l]["name"]}
+        al = errpure.mut_aliases(f, set(range(1, f.argc + 1)) | named)
+        bad = []
+        for i in sorted(region):
+            b = f.blocks[i]
+            t = b["term"]
+            if t["t"] == "call" and not is_panic_call(t):
+                n += 1
+                for a in t["args"]:
+                    if a["k"] in ("copy", "move") and a["pl"]["ty"].startswith(("&mut", "*mut")) and a["pl"]["l"] in al:
+                        bad.append(("%s receives `&mut` to caller-visible state inside a debug-only assertion" % callee_of(t).split("::")[-1], t["sp"]))
+            for st in b["stmts"]:
+                if st["s"] == "assign" and "*" in st["lhs"]["p"] and st["lhs"]["l"] in al:
+                    bad.append(("store %s inside a debug-only assertion" % pl(st["lhs"]), st["sp"]))
+        for w, sp in bad:
+            bad_total += 1
+            ctx.visit(f)
+            ctx.ob(RA, "%s: debug-only assertions carry no effect" % f.short, False, w, f.loc(sp))
+    ctx.ob(RA, "no debug-only assertion in the crate hands out `&mut` to caller-visible state or stores through it", bad_total == 0, "%d calls inside assertion regions inspected" % n)
+    ctx.floor(RA, n, floor, "calls inside debug-assertion regions")
